@@ -427,7 +427,22 @@ impl Built {
 
 thread_local! {
     /// a version-40 symbol used as destination of `clone_from` (every kind of module far outside any smaller square)
-    static LARGE_SLOT: Box<QRCode> = Box::new(QRBuilder::new("CLONE TARGET").version(Version::V40).ecl(ECL::L).build().expect("v40 symbol"));
+    static LARGE_SLOT: Box<QRCode> = large_symbol();
+}
+
+/// A version-40 symbol; if the tree under test cannot build one (then other checks report that), a hand-filled value of
+/// the same side, so that the copy checks never depend on this build
+pub fn large_symbol() -> Box<QRCode> {
+    match catch(|| QRBuilder::new("CLONE TARGET").version(Version::V40).ecl(ECL::L).build()) {
+        Ok(Ok(q)) => Box::new(q),
+        _ => {
+            let mut q = Box::new(QRCode::default(177));
+            for (i, m) in q.data.iter_mut().enumerate() {
+                *m = fast_qr::Module::new(i % 3 != 0, if i % 5 == 0 { ModuleType::Alignment } else { ModuleType::Data });
+            }
+            q
+        }
+    }
 }
 
 /// The same symbol as a value that previously held a larger one: `clone_from` onto a version-40 symbol. `Clone` is
